@@ -442,6 +442,22 @@ def run_errors(ctx):
             ctx.violation('C19:history:first_call', 'limits written with functions: %r' % (first.brief(),), wit)
         if not out.returned or out.value['ok'] is not True:
             ctx.violation('C19:history:same_summand_in_another_grader', 'the author\'s own sum was not accepted: %r' % (out.brief(),), wit)
+    # a random author function (redrawn for every sample) in the summand, no variables at all: the author's sum is recomputed per sample
+    from mitxgraders import RandomFunction
+    for i in range(ctx.pick(6, 60)):
+        lo, hi = sorted([rng.randint(-4, 4), rng.randint(-4, 4)])
+        hi = max(hi, lo + 1)
+        g = SumGrader(answers={'lower': str(lo), 'upper': str(hi), 'summand': 'rf(n)+n', 'summation_variable': 'n'},
+                      user_functions={'rf': RandomFunction(center=0, amplitude=3)}, samples=rng.choice([2, 3, 5]), tolerance=1e-9)
+        kindt = rng.choice(['same', 'reverse', 'rename', 'shift', 'wrong'])
+        sub = {'same': [str(lo), str(hi), 'rf(n)+n', 'n'], 'reverse': [str(hi), str(lo), 'n+rf(n)', 'n'], 'rename': [str(lo), str(hi), 'rf(k)+k', 'k'],
+               'shift': [str(lo - 2), str(hi - 2), 'rf(n+2)+n+2', 'n'], 'wrong': [str(lo), str(hi), 'rf(n)+n+1', 'n']}[kindt]
+        out = lib.call(ctx, g, None, list(sub))
+        ctx.ev()
+        ctx.count('random_function_summand_cases')
+        wit = {'author': [lo, hi, 'rf(n)+n', 'n'], 'submission': sub, 'transformation': kindt, 'samples': g.config['samples'], 'outcome': out.brief()}
+        ctx.nontrivial(wit)
+        judge(ctx, 'C19:random_function_summand:' + kindt, out, kindt != 'wrong', wit)
     # author failures are configuration errors
     author_bad = [
         {'lower': '1.5', 'upper': '5', 'summand': 'n', 'summation_variable': 'n'},
